@@ -131,19 +131,44 @@ def run(F, R, tier):
             t_only = B.reach([tr[1]]) - B.reach([fa[1]])
             f_only = B.reach([fa[1]]) - B.reach([tr[1]])
             for bi, w, r, t in sf:
-                layer_local = None
-                o = t["args"][0]
-                # the variable moved into service_fn
-                while o["k"] in ("copy", "move") and B.single_def(o["p"]["l"]) and B.single_def(o["p"]["l"])[2] == "assign" \
-                        and B.single_def(o["p"]["l"])[3]["rv"]["k"] == "use":
-                    o = B.single_def(o["p"]["l"])[3]["rv"]["o"]
-                layer_local = o["p"]["l"] if o["k"] in ("copy", "move") else None
-                defs = B.defs.get(layer_local, []) if layer_local is not None else []
+                # the limit that reaches the layer handed to service_fn, per outcome of the test - whether the branch picks one of two
+                # ready-made layers, or picks the number and builds one layer, or a helper does either
                 got = {}
-                for (dbi, si, kind, payload) in defs:
-                    side = "true" if dbi in t_only else ("false" if dbi in f_only else "both")
-                    src = payload["args"][0] if kind == "call" else payload["rv"].get("o", {"k": "const"})
-                    got.setdefault(side, set()).update(layer_limit_of(B, src) if src.get("k") in ("copy", "move") else {"<const>"})
+
+                def side_of(blk):
+                    return "true" if blk in t_only else ("false" if blk in f_only else "both")
+
+                def limits(o, side, depth=0):
+                    """{(side, const name)} for a limit / layer / builder operand; side = the branch the value was chosen on (the first
+                    definition met, walking back from service_fn, that lies on one side of the test)"""
+                    res = set()
+                    if o["k"] == "const":
+                        return {(side, o.get("def") or "<literal %s>" % o.get("val"))}
+                    if o["p"]["p"] or depth > 12:
+                        return {(side, "<?>")}
+                    for (dbi, si, kind, payload) in B.defs.get(o["p"]["l"], []):
+                        sd_ = side if side != "both" else side_of(dbi)
+                        if kind == "call":
+                            w_, r_ = mir.callee_of(payload)
+                            nm = q.base_name(w_ or "")
+                            if q.ends(nm, "RequestBodyLimitLayer::new"):
+                                res |= limits(payload["args"][0], sd_, depth + 1)
+                            elif q.ends(nm, "ServiceBuilder::layer"):
+                                res |= limits(payload["args"][1], sd_, depth + 1)
+                            elif mir.is_pass_through(w_, r_) and payload["args"]:
+                                res |= limits(payload["args"][0], sd_, depth + 1)
+                            else:
+                                res.add((sd_, "<%s>" % nm))
+                        elif kind == "assign" and not payload["lhs"]["p"] and payload["rv"]["k"] in ("use", "cast"):
+                            res |= limits(payload["rv"]["o"], sd_, depth + 1)
+                        elif kind == "assign" and not payload["lhs"]["p"] and payload["rv"]["k"] == "ref":
+                            res |= limits({"k": "copy", "p": payload["rv"]["p"]}, sd_, depth + 1)
+                        else:
+                            res.add((sd_, "<?>"))
+                    return res
+                for sd, cn in limits(t["args"][0], side_of(bi)):
+                    got.setdefault(sd, set()).add(cn)
+                # a definition outside both branches must not fix the limit (both sides would get it)
                 ok = got.get("true") == {LARGE} and got.get("false") == {LOW} and "both" not in got
                 R.check(ok, "C15.R2", "C15.R2:%s:selection" % SVC, q.where(B, sb),
                         "layer chosen: true edge -> %s, false edge -> %s" % (sorted(x.rsplit('::', 1)[-1] for x in got.get("true", [])),
